@@ -132,14 +132,27 @@ class NpProxy:
         if not any(_has_sym(a) for a in args):
             return getattr(_np, name)(*args)
         cells = []
+        arity = []
         for a in args:
             arr = _np.asarray(a if not (hasattr(a, "values") and hasattr(a, "index")) else a.values, dtype=object).reshape(-1)
             cells.extend(arr)
+            arity.append(len(arr))
+        if self._cls is not TSym:
+            # every operand a concrete number (possibly exact irrational): the real predicate decides
+            import sympy as _sp
+            vals = [_sp.sympify(unwrap(c)) for c in cells]
+            if all(v.is_number for v in vals):
+                k = 0
+                conc = []
+                for a, n in zip(args, arity):
+                    conc.append(_np.array([float(v) for v in vals[k:k + n]], dtype=float).reshape(_np.shape(_np.asarray(a if not (hasattr(a, "values") and hasattr(a, "index")) else a.values, dtype=object))))
+                    k += n
+                return bool(getattr(_np, name)(*conc))
         if self._cls is TSym:
             from .sym import t_const
             return decide(Node("np." + name, *[c.e if isinstance(c, Sym) else t_const(c) for c in cells]))
         import sympy as sp
-        f = sp.Function("np_" + name)
+        f = sp.Function("np_%s__%s" % (name, "_".join(str(n) for n in arity)))
         return decide(sp.Eq(f(*[sp.sympify(unwrap(c)) for c in cells]), 1))
 
     def allclose(self, a, b, *args, **kw):
